@@ -154,8 +154,11 @@ def parse(path: str) -> UnitSpec:
             elif head == "source":
                 src = rest
             elif head == "type":
-                k, n = rest.split()
-                u.order.append(("type", (src, k, n)))
+                # `type struct NAME [minus Derive ...]`: derives the unit's library replaces by a specified impl (reported as dropped)
+                parts = rest.split()
+                k, n = parts[0], parts[1]
+                minus = parts[3:] if len(parts) > 2 and parts[2] == "minus" else []
+                u.order.append(("type", (src, k, n, minus)))
             elif head == "const":
                 u.order.append(("const", (src, rest)))
             elif head == "accessors":
